@@ -16,21 +16,140 @@ pub fn case_json(cfg: &NetCfg, params: &[P], x: &[f32]) -> J {
     J::obj().set("network", J::s(&cfg.describe())).set("parameters", params_json(params)).set("input", J::f32s(x))
 }
 
+/// Two-operand combinations near the end of the single-precision range: a block of one linear
+/// layer whose elements do not mix (diagonal dense matrix / 1x1 single-channel kernel), two
+/// repetitions, input skips and / or output skips - every combination made inside the block has
+/// exactly two operands, so its result does not depend on any evaluation order, and whenever
+/// the exact combination of the two operands is representable the block's output is determined.
+/// Elements whose chain leaves the representable range (|v| > 0.99 f32::MAX at any point) are
+/// not judged.
+fn large_pairs(rng: &mut Rng) -> Out {
+    let spatial = rng.bool();
+    let n = if spatial { 0 } else { rng.range(1, 6) };
+    let (h, w) = (rng.range(1, 4), rng.range(1, 4));
+    let sh = if spatial { Sh::Sp(1, h, w) } else { Sh::Flat(n) };
+    let count = sh.count();
+    let inskips = rng.bool();
+    let outskips = !inskips || rng.bool();
+    let acc = *rng.pick(&[Acc::Mean, Acc::Mean, Acc::Add, Acc::Sub, Acc::Overwrite]);
+    let unit = |rng: &mut Rng| -> f32 { (if rng.bool() { 1.0 } else { -1.0 }) * *rng.pick(&[1.0f32, 0.5, 0.25, 0.75, 0.875]) };
+    // per-element factor of the layer
+    let (layer, param, factors): (LCfg, P, Vec<f32>) = if spatial {
+        let k = unit(rng);
+        (LCfg::Conv { filters: 1, kernel: (1, 1), stride: (1, 1), padding: (0, 0), dilation: (1, 1), act: Act::Linear, dropout: None }, P::Kern(vec![vec![vec![vec![k]]]]), vec![k; count])
+    } else {
+        let d: Vec<f32> = (0..n).map(|_| unit(rng)).collect();
+        let wm: Vec<Vec<f32>> = (0..n).map(|i| (0..n).map(|j| if i == j { d[i] } else { 0.0 }).collect()).collect();
+        (LCfg::Dense { n, act: Act::Linear, bias: false, dropout: None }, P::Dense { w: wm, b: None }, d)
+    };
+    let cfg = NetCfg::plain(sh, vec![LCfg::Feedback { body: vec![layer], loops: 2, inskips, outskips, acc }]);
+    let params = vec![P::Block(vec![param])];
+    let x: Vec<f32> = (0..count)
+        .map(|_| {
+            let mag = 10f64.powf(rng.f64_in(35.5, 38.6)).min(3.3e38) as f32;
+            if rng.bool() {
+                mag
+            } else {
+                -mag
+            }
+        })
+        .collect();
+    let mut out = Out::new(format!("large pairs {} {}", cfg.describe(), x.len()));
+    out.cover("large_pair_grid", format!("{} in{} out{} {}", if spatial { "spatial" } else { "flat" }, inskips, outskips, acc.name()));
+    let limit = 0.99 * f32::MAX as f64;
+    let comb = |a: f64, b: f64| -> Option<f64> {
+        // combine(a, [b]) of the reference semantics, None when an exact intermediate leaves the range
+        let (sum, r) = match acc {
+            Acc::Add => (a + b, a + b),
+            Acc::Sub => (a - b, a - b),
+            Acc::Mul => (a * b, a * b),
+            Acc::Mean => (a + b, (a + b) / 2.0),
+            Acc::Overwrite => (b, b),
+        };
+        if sum.abs() > limit {
+            None
+        } else {
+            Some(r)
+        }
+    };
+    let want: Vec<Option<f64>> = (0..count)
+        .map(|i| {
+            let f = factors[i] as f64;
+            let xi = x[i] as f64;
+            let o1 = f * xi;
+            let in2 = if inskips { comb(o1, xi)? } else { o1 };
+            let o2 = f * in2;
+            let res = if outskips { comb(o2, o1)? } else { o2 };
+            if [o1, in2, o2, res].iter().any(|v| v.abs() > limit) {
+                None
+            } else {
+                Some(res)
+            }
+        })
+        .collect();
+    let mut judged = want.iter().filter(|w| w.is_some()).count();
+    if !spatial && judged < count {
+        // an overflowed element reaches the others through the zeros of the matrix (0 x inf)
+        judged = 0;
+    }
+    if judged == 0 {
+        out.nontrivial = false;
+        out.count("large_pair_cases_entirely_outside_the_range", 1);
+        return out;
+    }
+    let net = match build(&cfg, Some(&params)) {
+        Ok(n) => n,
+        Err(m) => {
+            out.viol("block:create-panic:large", format!("creating {} panicked: {}", cfg.describe(), short(&m, 200)), case_json(&cfg, &params, &x));
+            return out;
+        }
+    };
+    match guard(|| net.predict(&tensor_of(cfg.input, &x))) {
+        Err(m) => out.viol("block:forward-panic:large", format!("predict of {} panicked: {}", cfg.describe(), short(&m, 200)), case_json(&cfg, &params, &x)),
+        Ok(p) => {
+            let got = flat(&p);
+            out.count("large_pair_elements_judged", judged as u64);
+            out.count("large_pair_elements_not_judged_(chain_leaves_the_range)", (count - judged) as u64);
+            if got.len() != count {
+                out.viol("block:shape:large", format!("{}: {} output elements, expected {}", cfg.describe(), got.len(), count), case_json(&cfg, &params, &x));
+            } else {
+                for i in 0..count {
+                    if let Some(wv) = want[i] {
+                        let tol = 1e-5 * (x[i].abs() as f64) + 1e-30;
+                        if !((got[i] as f64 - wv).abs() <= tol) {
+                            out.viol(
+                                &format!("block:value:large:{}:{}{}", acc.name(), if inskips { "in" } else { "" }, if outskips { "out" } else { "" }),
+                                format!("{}: input {:e}, layer factor {}: output[{}] = {:e}, the two-operand {} combinations give {:e}", cfg.describe(), x[i], factors[i], i, got[i], acc.name(), wv),
+                                case_json(&cfg, &params, &x),
+                            );
+                            break;
+                        }
+                    }
+                }
+            }
+        }
+    }
+    out
+}
+
 impl Monitor for C11 {
     fn id(&self) -> &'static str {
         "C11"
     }
     fn gens(&self, tier: Tier) -> Vec<(&'static str, u64)> {
-        vec![("blocks", tier.pick(160 * 2000, 160 * 40_000))]
+        vec![("blocks", tier.pick(160 * 2000, 160 * 40_000)), ("large_pairs", tier.pick(40_000, 800_000))]
     }
     fn rule(&self) -> &'static str {
-        "case i -> (flat | spatial block) x loops L in 1..4 x input-skips x output-skips x accumulation in {add, subtract, multiply, mean, overwrite} (the 160-point grid is walked completely, 40+ times), body of 1..3 random shape-preserving layers (dense; 'same' convolutions incl. dilation 2, size-preserving deconvolutions, deconvolution+max-pool pairs), the block placed first / after a layer of matching representation / before a dense layer (flattened output) / last; repetition-free weights in [-1,1]; Network::predict is compared with the reference block (L-fold application with shared weights, repetition r>1 fed combine(previous output, block input), output = combine(last, earlier outputs)) within the running f32 error bound. Every fourth case puts dropout 0.5 on the block's layers and sends the network object through a learn() call with two epochs, after which the installed weights are put back, before predicting: the block must still compute the dropout-free sequence. Every fourth case trains the network for 1..3 epochs on two samples (SGD 0.05, batch 1..2) and predicts with the weights training left behind: the reference block then uses the weights read from the block's first repetition for all repetitions. Distinct = distinct configuration descriptors."
+        "case i -> (flat | spatial block) x loops L in 1..4 x input-skips x output-skips x accumulation in {add, subtract, multiply, mean, overwrite} (the 160-point grid is walked completely, 40+ times), body of 1..3 random shape-preserving layers (dense; 'same' convolutions incl. dilation 2, size-preserving deconvolutions, deconvolution+max-pool pairs), the block placed first / after a layer of matching representation / before a dense layer (flattened output) / last; repetition-free weights in [-1,1]; Network::predict is compared with the reference block (L-fold application with shared weights, repetition r>1 fed combine(previous output, block input), output = combine(last, earlier outputs)) within the running f32 error bound. Every fourth case puts dropout 0.5 on the block's layers and sends the network object through a learn() call with two epochs, after which the installed weights are put back, before predicting: the block must still compute the dropout-free sequence. Every fourth case trains the network for 1..3 epochs on two samples (SGD 0.05, batch 1..2) and predicts with the weights training left behind: the reference block then uses the weights read from the block's first repetition for all repetitions. large_pairs: blocks of ONE linear layer whose elements do not mix (diagonal matrix / 1x1 single-channel kernel, factors +-{0.25..1}), two repetitions, input and / or output skips, accumulation mean / add / subtract / overwrite, inputs of magnitude 3e35..3.3e38 with random signs: every combination inside the block has exactly two operands, so no evaluation order is involved; elements for which the exact sum / difference of the two operands and every value of the chain stay below 0.99 f32::MAX must come out as the combination (1e-5 relative); other elements are not judged. Distinct = distinct configuration descriptors."
     }
     fn assumptions(&self) -> Vec<&'static str> {
         vec!["reference block semantics written from the property statement (refmodel::block_forward); multiply/subtract/mean over several sources read as a*prod(s), a-sum(s), (a+sum(s))/(1+|s|); overwrite = last source"]
     }
     fn run(&self, gen: &str, seed: u64, idx: u64, _tier: Tier) -> Out {
         let mut rng = Rng::stream(seed, gen, idx);
+        if gen == "large_pairs" {
+            return large_pairs(&mut rng);
+        }
         let g = idx % 160;
         let spatial = g % 2 == 1;
         let loops = 1 + ((g / 2) % 4) as usize;
